@@ -160,7 +160,17 @@ Theorem C20_win_replay : C20_win_replay_full.
 Proof. exact win_replay_full_wf. Qed.
 Print Assumptions C20_win_replay.
 
-(* Proved part: histories of any length, one operation per batch, in which every renamed entry is a
+(* Histories of any length, one operation per batch ([subs] = what os.walk listed at each step, each
+   covering the target of its operation), from any well-formed tree: replaying the whole stream
+   reproduces the final tree. *)
+Theorem C20_win_replay_history :
+  forall (ops : list op) (subs : list (path -> tree)) (f : fs),
+  wf_fs f -> history_ok subs f ops ->
+  Permutation (replay (view_of f) (win_history subs f ops)) (view_of (fold_left apply_op ops f)).
+Proof. exact win_replay_history_wf. Qed.
+Print Assumptions C20_win_replay_history.
+
+(* Earlier, weaker form (kept): histories of any length, one operation per batch, in which every renamed entry is a
    leaf (a file or an empty directory) and every arriving directory is empty (so the walked tree has
    no descendants): replaying the contract stream reproduces the tree exactly.  Renames and arrivals of
    directories *with content* are covered by C20_win_contract + C14 (one synthetic event per
